@@ -12,6 +12,17 @@ package corr
 //                  `hook t=<µs> r=<r>` after the `d` line of that hand-over.
 // ops (leaky):   new rate=<bit/s> | bind s=<ssrc> | w ssrc= seq= cc= xp= xl= pl= [nw=1]
 //                | setrate r= | adv us= | close
+//                re-entrancy (leaky; "the transport below is synchronous"): `w … re=1` marks a packet; the `bind … in=1`
+//                and `w … in=1` ops that follow are NOT performed by the application goroutine but by the NEXT WRITER of the
+//                marked packet, from inside the call that hands it over (on the pacer's goroutine, in the middle of a tick's
+//                drain): it registers a stream (AddStream) / writes a packet through the pacer it is being called by.  The
+//                model executes the ops in sequence; the two are the same history when the marked packet is handed over in
+//                the `adv` that follows the nested ops and nothing handed over before it in that `adv` belongs to a nested
+//                bind's SSRC (the generator sees to both; the interpreter finds out by a rehearsal of the case in sequence
+//                on an object of its own, and nests only then - so cut-down cases stay meaningful).  Any other op between
+//                the nested ops and the `adv`, or the end of the case, performs them in sequence instead.  The model
+//                driver ignores `re=` and `in=`.  `REENTER-UNREACHED` (a line no model prints): the rehearsal saw the
+//                marked packet handed over, the run itself did not.
 // observables:   `w n=<n> err=<class>` for every Write (after Close: `w post-close`, the select in
 //                the pacing interceptor picks at random between accepting and errPacerClosed),
 //                `d t=<µs since case start> s=<stream> seq=<seq> h=<header digest> p=<payload digest>`
@@ -194,6 +205,9 @@ type c17Rec struct {
 	// which error a failing next-writer call returns (per case), and how many have failed
 	errKinds []string
 	nFail    int64
+	// enter (leaky only) is called inside the next writer at every hand-over, after the `d` line was recorded:
+	// the re-entrant calls of the case are made from here
+	enter func(stream, seq int)
 }
 
 // c17Regime: one start point of the piecewise rate bound.
@@ -295,6 +309,9 @@ func (r *c17Rec) writerG(stream, gen int, fail func() bool) interceptor.RTPWrite
 		r.ents = append(r.ents, c17Ent{stream: stream, seq: int(h.SequenceNumber), line: line, body: body})
 		if r.after != nil {
 			r.lines = append(r.lines, r.after(h.MarshalSize()+len(p))...)
+		}
+		if r.enter != nil {
+			r.enter(stream, int(h.SequenceNumber))
 		}
 		if failed {
 			// which error: one of the well-known values a transport fails with, chosen per case (ambient_test.go); a
@@ -665,7 +682,7 @@ func runBwePacer(t *testing.T, ops []string, o *Out) {
 	for used[spare] {
 		spare++
 	}
-	runLeakyWith(t, ops, o, func(r int, m map[string]string) c17Leaky {
+	runLeakyWith(t, ops, o, func(o *Out, r int, m map[string]string) c17Leaky {
 		mn, ok1 := c17NatOK(m, "min", 2_000_000_000)
 		mx, ok2 := c17NatOK(m, "max", 2_000_000_000)
 		if !ok1 || !ok2 || mn < 1 || mn > r || r > mx {
@@ -683,11 +700,32 @@ func runBwePacer(t *testing.T, ops []string, o *Out) {
 }
 
 func runLeaky(t *testing.T, ops []string, o *Out) {
-	runLeakyWith(t, ops, o, func(r int, _ map[string]string) c17Leaky { return gcc.NewLeakyBucketPacer(r) })
+	runLeakyWith(t, ops, o, func(_ *Out, r int, _ map[string]string) c17Leaky { return gcc.NewLeakyBucketPacer(r) })
 }
 
-func runLeakyWith(t *testing.T, ops []string, o *Out, mk func(rate int, m map[string]string) c17Leaky) {
+func runLeakyWith(t *testing.T, ops []string, o *Out, mk func(o *Out, rate int, m map[string]string) c17Leaky) {
 	synctest.Test(t, func(t *testing.T) {
+		// Which marked packets (`re=1`, by op index) may have their nested ops performed by the next writer: those for
+		// which the nested and the sequential reading of the ops are the same history.  Found by a rehearsal of the case
+		// on an object of its own with every op performed in sequence: in the `adv` after the nested ops the marked
+		// packet is handed over, and nothing handed over before it in that `adv` belongs to a stream the nested ops
+		// register.  (Everything else - a marked packet of a stream without writer, a backlog the budget does not
+		// cover, a packet of the registered stream ahead - is performed in sequence, as the model does.)
+		var nest map[int]bool
+		for _, op := range ops {
+			if _, m := kv(op); m["in"] == "1" {
+				nest = map[int]bool{}
+				c17LeakyPass(ops, &Out{Amb: o.Amb}, mk, nil, nest)
+				break
+			}
+		}
+		c17LeakyPass(ops, o, mk, nest, nil)
+	})
+}
+
+// c17LeakyPass runs the ops once.  learn != nil: the rehearsal (all ops in sequence), which fills learn.
+func c17LeakyPass(ops []string, o *Out, mk func(o *Out, rate int, m map[string]string) c17Leaky, nest, learn map[int]bool) {
+	{
 		rec := &c17Rec{start: time.Now(), errKinds: c17ErrKinds(ops)}
 		var p c17Leaky
 		lbinds, lcalls, lfails := map[int]int{}, map[int]int{}, map[int]map[int]bool{}
@@ -697,8 +735,52 @@ func runLeakyWith(t *testing.T, ops []string, o *Out, mk func(rate int, m map[st
 				_ = p.Close()
 			}
 		}()
-		for _, op := range ops {
+		// re-entrancy: the calls the next writer of the marked packet makes from inside its hand-over
+		var (
+			pend    []func(emit func(string)) // the nested ops, in order
+			pendOut []string                  // their output lines (printed where the model prints them: before the tick's)
+			armed   bool
+			trigS   int
+			trigSeq int
+			// the rehearsal's view of the scene: the marked op, the SSRCs its nested ops register, how many nested ops
+			scIdx, scN = -1, 0
+			scBinds    = map[int]bool{}
+		)
+		runPend := func(emit func(string)) {
+			ps := pend
+			pend, armed = nil, false
+			for _, f := range ps {
+				f(emit)
+			}
+		}
+		seqEmit := func(l string) { o.P("%s", l) }
+		rec.enter = func(stream, seq int) { // on the pacer's goroutine, inside the next writer (rec.mu held)
+			if armed && len(pend) > 0 && stream == trigS && seq == trigSeq {
+				runPend(func(l string) { pendOut = append(pendOut, l) })
+			}
+		}
+		defer func() {
+			if len(pend) > 0 && p != nil && !closed { // the case ends before a tick: in sequence, as the model does
+				runPend(seqEmit)
+			}
+		}()
+		for idx, op := range ops {
 			name, m := kv(op)
+			if len(pend) > 0 && m["in"] != "1" && name != "adv" {
+				runPend(seqEmit) // something else comes first: the nested ops are ordinary sequential ops
+			}
+			if learn != nil && scIdx >= 0 {
+				switch {
+				case m["in"] == "1":
+					scN++
+					if v, ok := c17NatOK(m, "s", 1<<32-1); ok && name == "bind" {
+						scBinds[v] = true
+					}
+				case name == "adv" && scN > 0:
+				case scN > 0 || name == "adv" || name == "close":
+					scIdx = -1
+				}
+			}
 			switch name {
 			case "new":
 				r, ok := c17NatOK(m, "rate", 2_000_000_000)
@@ -706,7 +788,7 @@ func runLeakyWith(t *testing.T, ops []string, o *Out, mk func(rate int, m map[st
 					o.P("bad-op")
 					continue
 				}
-				if p = mk(r, m); p == nil {
+				if p = mk(o, r, m); p == nil {
 					o.P("bad-op")
 					continue
 				}
@@ -750,11 +832,17 @@ func runLeakyWith(t *testing.T, ops []string, o *Out, mk func(rate int, m map[st
 				}
 				lfails[s] = set
 				ss := s
-				p.AddStream(uint32(s), rec.writerG(s, lbinds[s], func() bool {
+				w := rec.writerG(s, lbinds[s], func() bool {
 					lcalls[ss]++
 					return lfails[ss][lcalls[ss]]
-				}))
+				})
 				lbinds[s]++
+				if m["in"] == "1" && armed {
+					pp := p
+					pend = append(pend, func(func(string)) { pp.AddStream(uint32(ss), w) })
+					continue
+				}
+				p.AddStream(uint32(s), w)
 			case "w":
 				sh, ok := c17ParseShape(m)
 				if !ok || p == nil {
@@ -766,9 +854,25 @@ func runLeakyWith(t *testing.T, ops []string, o *Out, mk func(rate int, m map[st
 					o.P("bad-op")
 					continue
 				}
+				if m["in"] == "1" && armed {
+					pp := p
+					pend = append(pend, func(emit func(string)) {
+						n, err := pp.Write(h, pay, interceptor.Attributes{})
+						c17Scribble(h, pay)
+						emit(fmt.Sprintf("w n=%d err=%s", n, c17Err(err)))
+					})
+					continue
+				}
 				n, err := p.Write(h, pay, interceptor.Attributes{})
 				c17Scribble(h, pay)
 				o.P("w n=%d err=%s", n, c17Err(err))
+				if m["re"] == "1" && len(pend) == 0 && !closed {
+					trigS, trigSeq = sh.ssrc, sh.seq
+					armed = nest[idx]
+					if learn != nil {
+						scIdx, scN, scBinds = idx, 0, map[int]bool{}
+					}
+				}
 				if m["nw"] != "1" {
 					synctest.Wait()
 				}
@@ -787,6 +891,31 @@ func runLeakyWith(t *testing.T, ops []string, o *Out, mk func(rate int, m map[st
 				}
 				time.Sleep(time.Duration(d) * time.Microsecond)
 				synctest.Wait()
+				rec.mu.Lock()
+				if learn != nil && scIdx >= 0 {
+					for _, e := range rec.ents { // what this adv handed over, in order
+						if scBinds[e.stream] {
+							break
+						}
+						if e.stream == trigS && e.seq == trigSeq {
+							learn[scIdx] = true
+							break
+						}
+					}
+					scIdx = -1
+				}
+				for _, l := range pendOut {
+					o.P("%s", l)
+				}
+				pendOut = nil
+				rec.mu.Unlock()
+				if len(pend) > 0 {
+					// the marked packet was not handed over in this adv: the case is outside what the nested reading
+					// and the sequential reading of its ops agree on (a malformed case, not a finding about the pacer)
+					o.P("REENTER-UNREACHED s=%d seq=%d", trigS, trigSeq)
+					runPend(seqEmit)
+				}
+				armed = false
 			case "close":
 				if p == nil || closed {
 					o.P("bad-op")
@@ -802,7 +931,7 @@ func runLeakyWith(t *testing.T, ops []string, o *Out, mk func(rate int, m map[st
 			}
 			rec.flush(o)
 		}
-	})
+	}
 }
 
 // ---- generators ----
@@ -1243,10 +1372,121 @@ func genPacingRebind(r *Rng) Case {
 	return Case{Class: "rebind", Ops: ops}
 }
 
+// genLeakyReenter: the transport below is synchronous and calls back into the pacer.  The next writer of one
+// stream, while it is being handed a packet in the middle of a tick's drain, registers another stream (a new one, or
+// an existing one with a new writer) and / or writes packets through the pacer; packets of the stream it registers
+// may already sit behind the packet in the queue.  By C17 every accepted packet that is dequeued after its stream
+// got a writer reaches that writer (the one registered when it is dequeued) exactly once.
+//
+// The nested and the sequential reading of the ops agree because (a) the queue is empty before each scene (the
+// `adv` before it has more ticks than packets were queued, and every tick releases at least one packet at these
+// rates), (b) what is queued ahead of the marked packet fits the first tick's budget and is of other streams than
+// the ones the nested ops register, (c) the nested ops are directly followed by the `adv`.
+func genLeakyReenter(r *Rng) Case {
+	rate := r.Pick(500_000, 1_000_000, 2_000_000, 8_000_000, 50_000_000, r.Range(300_000, 20_000_000))
+	budget0 := 5 * rate / 8000 // a tick's budget 5 ms after the last release (more after a pause)
+	ops := []string{fmt.Sprintf("new rate=%d", rate)}
+	var ssrcs, seq []int
+	fresh := func() int {
+		for {
+			v := r.Pick(len(ssrcs)+1, 0xFFFFFFF0+len(ssrcs), r.Intn(1<<32))
+			dup := false
+			for _, x := range ssrcs {
+				dup = dup || x == v
+			}
+			if !dup {
+				ssrcs = append(ssrcs, v)
+				seq = append(seq, r.Pick(0, 65530, r.Intn(65536)))
+				return len(ssrcs) - 1
+			}
+		}
+	}
+	bound := []int{}
+	for i, n := 0, r.Range(1, 3); i < n; i++ {
+		s := fresh()
+		bound = append(bound, s)
+		ops = append(ops, fmt.Sprintf("bind s=%d", ssrcs[s]))
+	}
+	q := 0 // at most this many packets are queued
+	wr := func(s int, extra string, maxLen int) int {
+		cc, xp, xl, pl := c17GenShape(r, "reenter")
+		sh := c17Shape{ssrc: ssrcs[s], seq: seq[s] & 0xFFFF, cc: cc, xp: xp, xl: xl, pl: pl}
+		if maxLen > 0 && rtpLen(sh) > maxLen {
+			cc, xp, xl = 0, 0, nil
+			pl = r.Range(0, max(0, maxLen-12))
+			sh = c17Shape{ssrc: ssrcs[s], seq: seq[s] & 0xFFFF, pl: pl}
+		}
+		ops = append(ops, c17WriteOp(0, false, ssrcs[s], seq[s], cc, xp, xl, pl, r.Chance(1, 2))+extra)
+		seq[s]++
+		q++
+		return rtpLen(sh)
+	}
+	drain := func() {
+		ops = append(ops, fmt.Sprintf("adv us=%d", (q+2)*5000+r.Pick(0, 0, 1, 2500, 4999)))
+		q = 0
+	}
+	for scene, n := 0, r.Range(1, 4); scene < n; scene++ {
+		// ordinary traffic, then everything drains
+		for i, m := 0, r.Range(0, 6); i < m; i++ {
+			wr(bound[r.Intn(len(bound))], "", 0)
+			if r.Chance(1, 3) {
+				ops = append(ops, fmt.Sprintf("adv us=%d", r.Pick(1, 1, 2, 3)*5000+r.Pick(0, 1, 2500)))
+			}
+		}
+		drain()
+		// the scene: a = the stream whose next writer calls back; b = the stream it registers
+		a := bound[r.Intn(len(bound))]
+		b, rebind := -1, false
+		if len(bound) > 1 && r.Chance(1, 3) {
+			for b = a; b == a; b = bound[r.Intn(len(bound))] {
+			}
+			rebind = true // an existing stream gets a NEW writer from inside a's writer
+		} else if r.Chance(5, 6) {
+			b = fresh()
+		} // else: nested writes only
+		// ahead of the marked packet: packets of streams other than b that leave budget for the marked one
+		used := 0
+		for i, m := 0, r.Pick(0, 0, 1, 2); i < m; i++ {
+			s := bound[r.Intn(len(bound))]
+			if s == b || budget0-used < 16 {
+				continue
+			}
+			used += wr(s, "", budget0-used-2)
+		}
+		wr(a, " re=1", 0)
+		if b >= 0 { // packets of b accepted before b is registered (or re-registered), behind the marked packet
+			for i, m := 0, r.Pick(0, 0, 1, 2, 3); i < m; i++ {
+				wr(b, "", 0)
+			}
+			ops = append(ops, fmt.Sprintf("bind s=%d in=1", ssrcs[b]))
+			if !rebind {
+				bound = append(bound, b)
+			}
+		}
+		for i, m := 0, r.Pick(0, 1, 1, 2, 3); i < m; i++ { // the writer writes: b's first packets, or somebody's next
+			s := b
+			if b < 0 || r.Chance(1, 4) {
+				s = bound[r.Intn(len(bound))]
+			}
+			wr(s, " in=1", 0)
+		}
+		ops = append(ops, fmt.Sprintf("adv us=%d", r.Pick(1, 1, 2, 3, 10)*5000+r.Pick(0, 0, 1, 2500)))
+	}
+	for i, m := 0, r.Range(0, 5); i < m; i++ {
+		wr(bound[r.Intn(len(bound))], "", 0)
+	}
+	drain()
+	ops = append(ops, "adv us=100000")
+	return Case{Class: "reenter", Ops: ops}
+}
+
 func genLeaky(r *Rng, tier string, idx int) Case {
 	classes := []string{"steady", "burst", "idle", "unknown", "latebind", "oversize", "ratechange", "zero", "closed", "shapes",
 		"wfail", "rebind"}
 	cl := classes[idx%len(classes)]
+	if cl == "latebind" && (idx/len(classes))%2 == 1 {
+		return genLeakyReenter(r) // a stream bound late - by the next writer of another one, in the middle of a tick
+	}
 	if cl == "wfail" || cl == "rebind" {
 		return genLeakyEnv(r, cl)
 	}
@@ -1356,7 +1596,7 @@ func genBwePacer(r *Rng, tier string, idx int) Case {
 		if !ok {
 			break
 		}
-		if r.Chance(1, 4) {
+		if r.Chance(1, 4) && c.Class != "reenter" { // (the reenter scenes rely on every tick having a budget)
 			rate = r.Pick(1, 100, 800, 1000, 1500, 1599, 1600, 5000, 10_000, 10_001, 20_000_000)
 		}
 		if rate < 1 {
